@@ -812,10 +812,11 @@ def partition_by_sum(array, parts):
         )
     cumulative_sum = array.cumsum()
     # Ideally, we want each part to have the same number of points (total /
-    # parts).
-    ideal_sum = cumulative_sum[-1] // parts
-    # If the parts are ideal, the cumulative sum of each part will be this
-    ideal_cumsum = np.arange(1, parts) * ideal_sum
+    # parts). If the parts are ideal, the cumulative sum at the end of part k
+    # will be k * total / parts. Rounding each of these (instead of rounding
+    # total / parts once and multiplying) keeps the remainder from piling up
+    # in the last part.
+    ideal_cumsum = (np.arange(1, parts) * cumulative_sum[-1]) // parts
     # Find the places in the real cumulative sum where the ideal values would
     # be. These are the split points. Between each split point, the sum of
     # elements will be approximately the ideal sum. Need to insert to the right
